@@ -158,9 +158,15 @@ def r_absint(chk, P, tier):
     chk.rule("SITES.naivetime", "NaiveTime struct literals occur only in the confirmed functions; fields are private", floor=10)
     known = {"from_hms_nano_opt", "from_num_seconds_from_midnight_opt", "overflowing_add_signed", "overflowing_add_offset", "overflowing_sub_offset", "MIN", "MAX",
              "with_hour", "with_minute", "with_second", "with_nanosecond", "clone"}
+    eng = res["engine"]
     for fn, bi, si, st in aggregate_sites(P, NT):
         short = fn.split("::{")[0].split("::")[-1]
-        chk.expect(short in known and "naive::time" in fn, fn, "%s builds a NaiveTime with a struct literal" % fn, loc=P.loc(fn, st["ln"]))
+        ok = short in known and "naive::time" in fn
+        if not ok:
+            # a site the review did not know: accepted when the abstract interpreter reached it and proved both field invariants there
+            inv = [o for (f2, key), o in eng.obl.items() if f2 == fn and o.kind == "invariant"]
+            ok = len(inv) >= 2 and not any(o.bad for o in inv)
+        chk.expect(ok, fn, "%s builds a NaiveTime with a struct literal and the field invariants (secs < 86400, frac < 2*10^9) are not proved there" % fn, loc=P.loc(fn, st["ln"]))
     chk.expect(fields_private(P, NT), "private", "NaiveTime has a public field")
 
 
